@@ -4754,24 +4754,6 @@ impl GlobalInferenceCtx<'_> {
                             uid: enum_uid,
                             variants,
                         } => {
-                            // inside a generic function every instantiation is an enum of its own
-                            let enum_uid = &if self.loc.comptime_args().is_some() {
-                                hir::common::instantiated_enum_uid(
-                                    *enum_uid,
-                                    variants
-                                        .iter()
-                                        .map(|variant| {
-                                            variant.ty.map_or_else(
-                                                || Ty::Void.into(),
-                                                |ty| self.tys[self.loc].meta_tys[ty],
-                                            )
-                                        })
-                                        .collect(),
-                                )
-                            } else {
-                                *enum_uid
-                            };
-
                             let mut variant_tys = Vec::with_capacity(variants.len());
 
                             let mut used_discriminants =
@@ -4882,6 +4864,50 @@ impl GlobalInferenceCtx<'_> {
                                     .into(),
                                 );
                             }
+
+                            // inside a generic function every instantiation is an enum of its own:
+                            // it gets a uid per list of payload types *and discriminants* (both
+                            // can come from comptime parameters)
+                            let enum_uid = &if self.loc.comptime_args().is_some() {
+                                let shape = variant_tys
+                                    .iter()
+                                    .map(|variant: &Intern<Ty>| match variant.as_ref() {
+                                        Ty::EnumVariant {
+                                            sub_ty,
+                                            discriminant,
+                                            ..
+                                        } => (*sub_ty, *discriminant),
+                                        _ => unreachable!(),
+                                    })
+                                    .collect();
+                                let instantiated =
+                                    hir::common::instantiated_enum_uid(*enum_uid, shape);
+
+                                for variant in &mut variant_tys {
+                                    let Ty::EnumVariant {
+                                        variant_name,
+                                        uid,
+                                        sub_ty,
+                                        discriminant,
+                                        ..
+                                    } = variant.as_ref()
+                                    else {
+                                        unreachable!()
+                                    };
+                                    *variant = Ty::EnumVariant {
+                                        enum_uid: instantiated,
+                                        variant_name: *variant_name,
+                                        uid: *uid,
+                                        sub_ty: *sub_ty,
+                                        discriminant: *discriminant,
+                                    }
+                                    .into();
+                                }
+
+                                instantiated
+                            } else {
+                                *enum_uid
+                            };
 
                             let enum_ty = Ty::Enum {
                                 uid: *enum_uid,
